@@ -8,7 +8,7 @@ faults, checked step by step against Python lists of serialised groups.
 from ..rng import digest
 
 PROPERTY = 'C18'
-TIERS = {'quick': {'runs': 240000, 'group': 3000}, 'thorough': {'runs': 6000000, 'group': 25000}}
+TIERS = {'quick': {'runs': 240000, 'group': 3000}, 'thorough': {'runs': 4000000, 'group': 25000}}
 RULE = ('Each run builds 1-2 argument lists (direct TexArgs, or node.args of a parsed command or environment) '
         'from a pool of brace/bracket groups with duplicates, then applies a history of 1-40 operations (append, '
         'extend, insert at any index in [-(len+2), len+2], remove, pop() / pop(i), reverse, clear, x[i], x[a:b:c], '
